@@ -158,6 +158,12 @@ theorem at_wire_buf {w : WireR} {buf : Bytes} {p : Nat} (h : At (.wire w) buf p)
 
 /-! ### nextSeg -/
 
+theorem nextSegLoop_stop (fuel : Nat) (r : WireR)
+    (h : ¬ (r.seg < r.wire.length ∧ r.pos ≥ (r.wire[r.seg]?.getD []).length)) : WireR.nextSegLoop fuel r = r := by
+  cases fuel with
+  | zero => rfl
+  | succ fuel => simp only [WireR.nextSegLoop, WireR.segAt_eq, if_neg h]
+
 theorem nextSeg_spec (w : WireR) (hp : w.Pre) (hne : NE w.wire) :
     ∃ r1, w.nextSeg = (r1, decide (r1.seg < w.wire.length)) ∧ r1.wire = w.wire ∧ r1.base = w.base
       ∧ r1.absPos = w.absPos ∧ r1.Pre ∧ (r1.seg < w.wire.length ↔ w.absPos < w.wire.flatten.length)
@@ -195,10 +201,17 @@ theorem nextSeg_spec (w : WireR) (hp : w.Pre) (hne : NE w.wire) :
       have := hne (w.seg + 1) (by omega) hlt
       exact List.length_pos_iff.2 this
     refine ⟨{ w with seg := w.seg + 1, pos := 0 }, ?_, rfl, rfl, habs, hpre, key _ rfl habs hpre hlt, hlt⟩
-    simp only [WireR.nextSeg, WireR.segAt_eq, if_pos hc]
+    have hstop : WireR.nextSegLoop w.wire.length { w with seg := w.seg + 1, pos := 0 }
+        = { w with seg := w.seg + 1, pos := 0 } := by
+      apply nextSegLoop_stop
+      rintro ⟨c1, c2⟩
+      have := hlt c1
+      simp only [] at c2
+      omega
+    simp only [WireR.nextSeg, WireR.nextSegLoop, WireR.segAt_eq, if_pos hc, hstop]
   · have hlt : (w.seg < w.wire.length → w.pos < (w.wire[w.seg]?.getD []).length) := by
       intro hlt; omega
     refine ⟨w, ?_, rfl, rfl, rfl, ⟨h1, h2, h3⟩, key _ rfl rfl ⟨h1, h2, h3⟩ hlt, hlt⟩
-    simp only [WireR.nextSeg, WireR.segAt_eq, if_neg hc]
+    simp only [WireR.nextSeg, nextSegLoop_stop _ w hc]
 
 end Ndn.C03
